@@ -13,7 +13,7 @@ import (
 // makes the generated struct decoder read the previous field from the enum's own bytes.
 
 func init() {
-	register(&Rule{ID: "R05.7", Props: []string{"C05"}, Floor: 12,
+	register(&Rule{ID: "R05.7", Props: []string{"C05"}, Floor: 8,
 		Doc: "generated functions with named results: the body synthesised from the template assigns every named result it returns through a bare return (a never-assigned size/value result reports zero)",
 		Run: runR05_7})
 }
